@@ -273,7 +273,8 @@ Section EngineProofs.
       { intros x. rewrite (pending_ext g (updE f t Done) x Hd). unfold pending. apply filter_done_drop. exact Htnd. }
       split; cbn [st log]; fold g.
       + intros x Hx. rewrite Hg. rewrite upd_other by (intros ->; contradiction).
-        rewrite (inv_absent s I x Hx). apply iter_rel1_fixed. intros n; discriminate.
+        pose proof (inv_absent s I x Hx) as Ha. fold f in Ha. rewrite Ha.
+        apply iter_rel1_fixed. intros n; discriminate.
       + intros x Hx. destruct (teq x t) as [->|Hne]; [rewrite Hgt; discriminate|].
         rewrite Hg, upd_other by assumption.
         pose proof (inv_present s I x Hx) as Hp. fold f in Hp.
